@@ -53,6 +53,9 @@ type genState struct {
 	ts      int64
 	evN     int
 	hits    map[string]int
+	blocked bool            // inside a phase in which the downstream handler is blocked: every arrival misses the cache
+	relBlk  map[string]bool // sources released while downstream is blocked (their release goroutines are stuck)
+	overlap bool            // an item arrived for a source whose release is stuck
 }
 
 func instToks(i inst) string {
@@ -71,6 +74,8 @@ func (g *genState) view(s string, forceHit bool) (string, bool) {
 	k := r.Intn(100)
 	hit := false
 	switch {
+	case g.blocked:
+		hit = false // a hit would park the caller inside the stage (see the driver's comment)
 	case forceHit:
 		hit = true
 	case pending:
@@ -133,6 +138,9 @@ func (g *genState) opM() string {
 	order := []string{}
 	for q := 0; q < n; q++ {
 		s := hx.Pick(r, g.pool)
+		if g.blocked && s.src == "" {
+			continue
+		}
 		id := s.ty + s.name + "\x00" + s.tagsKey
 		if used[id] {
 			continue
@@ -164,7 +172,14 @@ func (g *genState) opM() string {
 			g.notePark(s)
 			g.parkedM[s] = true
 			g.hits["M-miss"]++
+			if g.relBlk[s] {
+				g.overlap = true
+				g.hits["M-while-release-stuck"]++
+			}
 		}
+	}
+	if len(es) == 0 {
+		return g.opV()
 	}
 	if len(order) >= 2 {
 		g.hits["M-multi-source"]++
@@ -172,10 +187,13 @@ func (g *genState) opM() string {
 	return fmt.Sprintf("M %d %s , %s", len(pk), strings.Join(pk, " "), strings.Join(es, " , "))
 }
 
-func (g *genState) opV() string {
+func (g *genState) opV() string { return g.opVfor("") }
+
+// opVfor: an event from source want ("" = any, sometimes the empty source).
+func (g *genState) opVfor(want string) string {
 	r := g.r
-	src := ""
-	if !r.Chance(1, 8) {
+	src := want
+	if src == "" && (g.blocked || !r.Chance(1, 8)) {
 		src = hx.Pick(r, g.srcs)
 	}
 	pk := []string{}
@@ -199,6 +217,10 @@ func (g *genState) opV() string {
 		g.notePark(src)
 		g.parkedE[src]++
 		g.hits["V-miss"]++
+		if g.relBlk[src] {
+			g.overlap = true
+			g.hits["V-while-release-stuck"]++
+		}
 	}
 	g.evN++
 	var tags []string
@@ -232,6 +254,10 @@ func (g *genState) opI(s string) string {
 	if !g.flight[s] {
 		g.hits["I-unsolicited"]++
 	}
+	if g.blocked && (g.parkedM[s] || g.parkedE[s] > 0) {
+		g.relBlk[s] = true
+		g.hits["I-releases-while-downstream-blocked"]++
+	}
 	delete(g.parkedM, s)
 	delete(g.parkedE, s)
 	delete(g.flight, s)
@@ -252,11 +278,89 @@ func sortedKeys(m map[string]bool) []string {
 	return hx.SortedCopy(out)
 }
 
+// blockedPhase: downstream blocks, the stage goes on (cache-missing arrivals, sink drains, completions,
+// emissions), downstream resumes. chatty: the history of the seeded change C11a/m1 and its neighbours — a
+// source with several parked events is released while downstream is stuck on its first delivery and keeps
+// sending.
+func (g *genState) blockedPhase(parts []string, allowE bool, released *bool) []string {
+	r := g.r
+	g.hits["blocked-phase"]++
+	inner := func(k int, s string) {
+		switch {
+		case k < 40:
+			parts = append(parts, g.opVfor(s))
+		case k < 58:
+			parts = append(parts, g.opM())
+		case k < 72:
+			parts = append(parts, g.opL())
+		case k < 94:
+			fl := sortedKeys(g.flight)
+			t := s
+			if t == "" || !g.flight[t] {
+				if len(fl) == 0 {
+					parts = append(parts, g.opL())
+					return
+				}
+				t = hx.Pick(r, fl)
+			}
+			if g.parkedM[t] || g.parkedE[t] > 0 {
+				*released = true
+			}
+			parts = append(parts, g.opI(t))
+		default:
+			if allowE {
+				parts = append(parts, "E")
+				g.hits["E"]++
+			} else {
+				parts = append(parts, g.opL())
+			}
+		}
+	}
+	if r.Chance(1, 2) {
+		g.hits["blocked-phase-chatty"]++
+		s := hx.Pick(r, g.srcs)
+		for need := r.Range(2, 3); g.parkedE[s] < need; {
+			parts = append(parts, g.opVfor(s))
+			if g.parkedE[s] == 0 {
+				break // the cache answered: leave it
+			}
+		}
+		parts = append(parts, g.opL())
+		parts = append(parts, "B")
+		g.blocked = true
+		if g.parkedM[s] || g.parkedE[s] > 0 {
+			*released = true
+		}
+		parts = append(parts, g.opI(s))
+		for k := r.Range(1, 4); k > 0; k-- {
+			if r.Chance(1, 5) {
+				parts = append(parts, g.opM())
+			} else {
+				parts = append(parts, g.opVfor(s))
+			}
+		}
+		parts = append(parts, g.opL())
+		for k := r.Intn(4); k > 0; k-- {
+			inner(r.Intn(100), s)
+		}
+	} else {
+		parts = append(parts, "B")
+		g.blocked = true
+		for k := r.Range(2, 8); k > 0; k-- {
+			inner(r.Intn(100), "")
+		}
+	}
+	parts = append(parts, "U")
+	g.blocked = false
+	g.relBlk = map[string]bool{}
+	return parts
+}
+
 // history builds one case. allowE=false suppresses emissions (used to bound the number of cases that
 // re-find the known defect D7 while it is present, see gen).
-func history(r *hx.Rng, maxOps, maxSrc int, mix, allowE bool, hits map[string]int) (string, bool) {
+func history(r *hx.Rng, maxOps, maxSrc int, mix, allowE, blocking bool, hits map[string]int) (string, bool) {
 	g := &genState{r: r, mix: mix, kindOf: map[string]byte{}, parkedM: map[string]bool{}, parkedE: map[string]int{}, needL: map[string]bool{},
-		flight: map[string]bool{}, hits: hits}
+		flight: map[string]bool{}, hits: hits, relBlk: map[string]bool{}}
 	ns := r.Range(1, maxSrc)
 	perm := append([]string(nil), srcPool...)
 	r.Shuffle(len(perm), func(i, j int) { perm[i], perm[j] = perm[j], perm[i] })
@@ -280,7 +384,13 @@ func history(r *hx.Rng, maxOps, maxSrc int, mix, allowE bool, hits map[string]in
 	parts := []string{"c11"}
 	released := false
 	unsolicited := false
+	phases := 0
 	for o := 0; o < nops; o++ {
+		if blocking && (r.Chance(1, 8) || (phases == 0 && o == nops-1)) {
+			parts = g.blockedPhase(parts, allowE, &released)
+			phases++
+			continue
+		}
 		k := r.Intn(100)
 		switch {
 		case k < 34:
@@ -341,6 +451,12 @@ func history(r *hx.Rng, maxOps, maxSrc int, mix, allowE bool, hits map[string]in
 	if !unsolicited {
 		hits["history-answers-only-to-requests"]++
 	}
+	if phases > 0 {
+		hits["history-with-blocked-downstream"]++
+	}
+	if g.overlap {
+		hits["history-with-arrival-while-release-stuck"]++
+	}
 	hits[fmt.Sprintf("ops=%d", (len(parts)-1)/10*10)]++
 	hits[fmt.Sprintf("sources=%d", ns)]++
 	return strings.Join(parts, " ; "), released
@@ -358,7 +474,7 @@ func gen(args []string) {
 	r := hx.NewRng(hx.Seed())
 	n := hx.ArgInt(args, "--n", 200)
 	tier := hx.Arg(args, "--tier", "quick")
-	st := hx.NewStats("histories of 5..60 ops over 1..4 sources (two of them sharing one instance) and 2..6 series of all four types (unsorted tags, empty source included): metric batches with several sources under an arbitrary per-op cache view (miss / negative hit / hit), events, sink drains, lookup completions (instance / nil; mostly for sources in flight, sometimes unsolicited), emissions; 80% end by releasing everything; non-trivial = some parked item is released by a lookup completion; distinct by case text")
+	st := hx.NewStats("histories of 5..60 ops over 1..4 sources (two of them sharing one instance) and 2..6 series of all four types (unsorted tags, empty source included): metric batches with several sources under an arbitrary per-op cache view (miss / negative hit / hit), events, sink drains, lookup completions (instance / nil; mostly for sources in flight, sometimes unsolicited), emissions; in ~30% of the histories the downstream handler blocks and resumes (ops B/U) while cache-missing arrivals, drains, completions and emissions go on — half of these phases release a source with several parked events and let it keep sending while its release is stuck; 80% end by releasing everything; non-trivial = some parked item is released by a lookup completion; distinct by case text")
 	maxOps := 40
 	if tier == "thorough" {
 		maxOps = 60
@@ -386,7 +502,10 @@ func gen(args []string) {
 				allowE = false
 			}
 		}
-		line, released := history(r.Fork(), mo, ms, mix, allowE, hits)
+		// the downstream handler blocks and resumes in about 30% of the histories (mixed ones: a source may
+		// then have metrics and events parked and released together while downstream is stuck)
+		blocking := mix && r.Chance(3, 5)
+		line, released := history(r.Fork(), mo, ms, mix, allowE, blocking, hits)
 		st.Case(line, released)
 		fmt.Fprintln(hx.Out, line)
 		if mix {
